@@ -111,3 +111,20 @@ pub fn cache_entry_follow_set(
 ) -> crate::analysis::FollowSet {
     entry.follow_set.clone()
 }
+
+/// The minimized ("compiled") form of a lookahead automaton, as it is written into generated
+/// parsers: (production of state 0, transitions (from, terminal, to, production of to), k).
+/// `CompiledDFA` itself is crate-private.
+pub fn compile_lookahead_dfa(
+    dfa: &crate::analysis::LookaheadDFA,
+) -> (i32, Vec<(usize, parol_runtime::TerminalIndex, usize, i32)>, usize) {
+    let c = crate::analysis::compiled_la_dfa::CompiledDFA::from_lookahead_dfa(dfa);
+    (
+        c.prod0,
+        c.transitions
+            .iter()
+            .map(|t| (t.from_state, t.term, t.to_state, t.prod_num))
+            .collect(),
+        c.k,
+    )
+}
